@@ -136,6 +136,23 @@ def check_X2(ctx, facts, cfg):
                     '%s is awaited outside the future given to tokio::time::timeout although a timeout is configured: if the peer stalls '
                     'after the response head (held link), the call neither answers nor times out within the bound' % what)
     ctx.floor('C14.X2', cfg + ' network awaits in the exchange', n, 3)
+    # nothing else is awaited outside the timed future on a path where a timeout is configured
+    for b, t in tg.calls():
+        if cname(t) != 'core::future::into_future::IntoFuture::into_future':
+            continue
+        src = tflow.backward([op_local(t['args'][0])])
+        if tt['dest']['l'] in src:
+            continue            # the await of the timed future itself
+        producer = [x for _b, x in tg.calls() if x['dest']['l'] in src and cname(x) and cname(x).startswith(R) and x['dest']['l'] != tt['dest']['l']]
+        if any(cname(x) in NET for x in producer):
+            continue            # already judged above
+        only_none = not (b in some_blocks or tg.dominates(b, switch_block) or switch_block in tg.reachable_from([b]) or b in tg.reachable_from([tb]))
+        if only_none:
+            continue
+        what = last_seg(cname(producer[0])) if producer else 'a future'
+        ctx.bad('C14.X2', '%s|await-outside|%s' % (cfg, what), site(tg, t['cs']),
+                '%s is awaited outside the future given to tokio::time::timeout although a timeout is configured: this wait (connection '
+                'establishment, readiness, …) is not bounded by the caller\'s timeout' % what)
     # expiry -> Status::timeout
     mapped = False
     fw = tflow.forward([tt['dest']['l']], stop=[0])
